@@ -6,11 +6,15 @@ Model/Resolution.v, and an independent Python implementation of the documented r
 A family / call is plain JSON data (so that replays and the corpus are self-contained):
   family = {"chain": [{"excl": bool, "funs": [fun, ...]}, ...]}      chain[0] = the context the call is made on;
                                                                       the order of "funs" IS the enumeration order
+  a layer's "excl" says that the name is marked exclusive in that context; an overload with "xreg": true is
+  registered with exclusive=True (no overload carries the key -> all are); overloads are REGISTERED in the
+  order of "funs" as well, so permuting "funs" permutes enumeration and registration order together
+  a parameter is [name, kind, default] or [name, kind, default, alias] (explicit alias=...)
   fun    = {"fid": int, "pos": [[name, kind, default], ...], "star": [name, kind]|None,
             "kwonly": [[name, kind, default], ...], "starstar": [name, kind]|None,
             "kind": "function"|"method"|"extension", "nokw": bool}
   kind   = ["T", tag, nullable] | ["L"] | ["E"] | ["H"] (hidden, by name engine/context) | ["U"] (undeclared)
-           | ["C"] (yaqltypes.Constant(False)) | ["M"] (yaqltypes.MappingRule())
+           | ["C"] (yaqltypes.Constant(False)) | ["M"] (yaqltypes.MappingRule()) | ["A", [tags], nullable] (yaqltypes.AnyOf)
   default= None | value ;   value = "null" | ["obj", tag] | ["int", n] | "marker"
   call   = {"recv": value|None, "args": [arg, ...], "kwargs": [[name, value], ...]}
   arg    = ["const", v] | ["expr", id, v] | ["raw", v] | ["skip"] | ["mapc", k, v] | ["mape", k, id, v]
@@ -47,12 +51,22 @@ class F(object):
     pass
 
 
-CLASSES = [object, X, A, B, D, E, F]
-CLASS_NAMES = ["object", "X", "A", "B", "D", "E", "F"]
-INST = {i: CLASSES[i]() for i in range(1, 7)}
+class G(A):
+    pass
+
+
+class H(G, B):
+    pass
+
+
+CLASSES = [object, X, A, B, D, E, F, G, H]
+CLASS_NAMES = ["object", "X", "A", "B", "D", "E", "F", "G", "H"]
+NCLS = len(CLASSES)
+INST = {i: CLASSES[i]() for i in range(1, NCLS)}
 MAPRULE_CODE = -1
 
-NAMES = ["a", "b", "c", "x_y", "val_", "k", "m", "engine", "context", "rest", "kw", "xY", "val", "zz"]
+NAMES = ["a", "b", "c", "x_y", "val_", "k", "m", "engine", "context", "rest", "kw", "xY", "val", "zz",
+         "max_count", "maxCount", "opt_", "opt", "lim", "limit"]
 _codes = {n: i + 1 for i, n in enumerate(NAMES)}
 
 
@@ -75,6 +89,11 @@ def camel(name):
             out.append(ch)
             i += 1
     return "".join(out)
+
+
+def palias(p):
+    """yaql-side name of a JSON parameter: the explicit alias or the convention applied to the python name"""
+    return p[3] if len(p) > 3 and p[3] else camel(p[0])
 
 
 # ---- values -------------------------------------------------------------------------
@@ -178,6 +197,8 @@ def kind_type(kind):
         return yaqltypes.Lambda()
     if k == "E":
         return yaqltypes.YaqlExpression()
+    if k == "A":
+        return yaqltypes.AnyOf(*[CLASSES[t] for t in kind[1]], nullable=kind[2])
     if k == "C":
         return yaqltypes.Constant(False)
     if k == "M":
@@ -191,14 +212,14 @@ _glob = {"INST": INST}
 def make_function(fun):
     """exec() a python function with the requested signature; the payload returns what it received"""
     parts, names = [], []
-    for name, kind, default in fun["pos"]:
+    for name, kind, default in [q[:3] for q in fun["pos"]]:
         parts.append(name if default is None else "%s=%s" % (name, _default_src(default)))
         names.append(name)
     if fun["star"]:
         parts.append("*" + fun["star"][0])
     elif fun["kwonly"]:
         parts.append("*")
-    for name, kind, default in fun["kwonly"]:
+    for name, kind, default in [q[:3] for q in fun["kwonly"]]:
         parts.append(name if default is None else "%s=%s" % (name, _default_src(default)))
     if fun["starstar"]:
         parts.append("**" + fun["starstar"][0])
@@ -206,20 +227,20 @@ def make_function(fun):
         ", ".join(parts), fun["fid"],
         "".join(n + ", " for n in names),
         fun["star"][0] if fun["star"] else "()",
-        "".join("(%r, %s), " % (n, n) for n, _, _ in fun["kwonly"]),
+        "".join("(%r, %s), " % (q[0], q[0]) for q in fun["kwonly"]),
         fun["starstar"][0] if fun["starstar"] else "{}")
     env = dict(_glob)
     exec(src, env)
     fn = env["payload"]
-    decl = [(n, k) for n, k, _ in fun["pos"]] + [(n, k) for n, k, _ in fun["kwonly"]]
+    decl = [(q[0], q[1], q[3] if len(q) > 3 else None) for q in fun["pos"] + fun["kwonly"]]
     if fun["star"]:
-        decl.append(tuple(fun["star"]))
+        decl.append((fun["star"][0], fun["star"][1], None))
     if fun["starstar"]:
-        decl.append(tuple(fun["starstar"]))
-    for name, kind in decl:
+        decl.append((fun["starstar"][0], fun["starstar"][1], None))
+    for name, kind, alias in decl:
         t = kind_type(kind)
-        if t is not None:
-            specs.parameter(name, t)(fn)
+        if t is not None or (alias and kind != ["H"]):
+            specs.parameter(name, t, alias=alias)(fn)
     if fun["kind"] == "method":
         specs.method(fn)
     elif fun["kind"] == "extension":
@@ -284,10 +305,11 @@ def build_chain(family):
     ctx.register_function(system.op_dot)
     for layer in reversed(family["chain"]):
         ctx = OrderedContext(ctx)
+        marked = any(f.get("xreg") for f in layer["funs"])
         for fun in layer["funs"]:
             try:
                 fd = make_function(fun)
-                ctx.register_function(fd, exclusive=layer["excl"])
+                ctx.register_function(fd, exclusive=bool(layer["excl"] and (fun.get("xreg") or not marked)))
             except (exceptions.InvalidMethodException, SyntaxError) as e:
                 raise BadFamily(repr(e))
             ctx.order.append(fd)
@@ -473,6 +495,8 @@ def kind_term(vt):
         return "KExpr"
     if isinstance(vt, yaqltypes.PythonType):
         return "(KTyped %d %s)" % (CLASSES.index(vt.python_type), gal.boolean(vt.nullable))
+    if isinstance(vt, yaqltypes.AnyOf):
+        return "(KAnyOf %s %s)" % (gal.natlist(CLASSES.index(t.python_type) for t in vt.types), gal.boolean(vt.nullable))
     raise ValueError(vt)
 
 
@@ -516,8 +540,9 @@ def case_term(family, fds, call, obs, log):
 
 # ---- random families and calls -------------------------------------------------------------
 VIS_NAMES = ["a", "b", "c", "x_y", "val_"]
-KW_NAMES = ["k", "m", "x_y"]
-RELATED = [1, 2, 3, 4, 5]
+KW_NAMES = ["k", "max_count", "opt_", "lim"]
+EXPLICIT_ALIAS = {"lim": "limit", "k": None, "c": None}
+RELATED = [1, 2, 3, 4, 5, 7, 8]
 
 
 def gen_value(rng):
@@ -528,7 +553,7 @@ def gen_value(rng):
         return ["int", rng.randrange(0, 5)]
     if r < 0.3:
         return ["obj", 6]
-    return ["obj", rng.choice([4, 4, 5, 5, 2, 3, 1])]
+    return ["obj", rng.choice([4, 4, 5, 5, 2, 3, 1, 8, 8, 7])]
 
 
 def gen_kind(rng, lazy_bias=0.0):
@@ -537,6 +562,8 @@ def gen_kind(rng, lazy_bias=0.0):
         return rng.choice([["L"], ["L"], ["E"], ["M"]])
     if r > 0.97:
         return ["C"]
+    if r > 0.9:
+        return ["A", rng.sample(range(0, NCLS), rng.choice([1, 2, 2, 3])), rng.random() < 0.3]
     if r < lazy_bias + 0.12:
         return ["U"]
     if r < lazy_bias + 0.2:
@@ -549,15 +576,15 @@ def gen_kind(rng, lazy_bias=0.0):
 def gen_default(rng, kind):
     r = rng.random()
     if kind[0] in ("C", "M"):
-        return ["obj", rng.choice(range(1, 7))]        # never acceptable, never None (Constant.convert(None) is not modelled)
+        return ["obj", rng.choice(range(1, NCLS))]        # never acceptable, never None (Constant.convert(None) is not modelled)
     if kind[0] == "T" and r < 0.5:
         # a default the declared type accepts, mostly
-        cands = [c for c in range(1, 7) if issubclass(CLASSES[c], CLASSES[kind[1]])]
+        cands = [c for c in range(1, NCLS) if issubclass(CLASSES[c], CLASSES[kind[1]])]
         if cands:
             return ["obj", rng.choice(cands)]
     if r < 0.8:
         return "null"
-    return ["obj", rng.choice(range(1, 7))]
+    return ["obj", rng.choice(range(1, NCLS))]
 
 
 def gen_fun(rng, fid, shape):
@@ -580,10 +607,14 @@ def gen_fun(rng, fid, shape):
             pos[j][2] = gen_default(rng, pos[j][1])
     star = ["rest", gen_kind(rng, 0.05 if not shape["lazy"] else 0.2)] if rng.random() < shape["pstar"] else None
     kwonly = []
-    for n in KW_NAMES[:2]:
+    for n in rng.sample(KW_NAMES, 2):
         if rng.random() < shape["pkwonly"] and n not in [p[0] for p in pos]:
             k = gen_kind(rng, 0.04)
             kwonly.append([n, k, gen_default(rng, k) if rng.random() < 0.7 else None])
+    # explicit aliases (alias=...) on some parameters
+    for q in pos + kwonly:
+        if q[0] in EXPLICIT_ALIAS and q[1] != ["H"] and rng.random() < 0.5:
+            q.append(EXPLICIT_ALIAS[q[0]] or (q[0] + "Alias"))
     if rng.random() < 0.06 and not any(p[0] == "context" for p in pos):
         kwonly.append(["context", ["H"], None])
     starstar = ["kw", gen_kind(rng, 0.03)] if rng.random() < shape["pss"] else None
@@ -597,6 +628,17 @@ def gen_fun(rng, fid, shape):
             first[1] = ["T", rng.choice(RELATED), False]
     nokw = rng.random() < shape["pnokw"]
     return {"fid": fid, "pos": pos, "star": star, "kwonly": kwonly, "starstar": starstar, "kind": kind, "nokw": nokw}
+
+
+def mark_exclusive(rng, chain):
+    """an exclusive layer: a random non-empty subset of its overloads is registered with exclusive=True"""
+    for layer in chain:
+        if layer["excl"] and layer["funs"]:
+            flags = [rng.random() < 0.5 for _ in layer["funs"]]
+            if not any(flags):
+                flags[rng.randrange(len(flags))] = True
+            for f, x in zip(layer["funs"], flags):
+                f["xreg"] = x
 
 
 def gen_family(rng):
@@ -617,6 +659,7 @@ def gen_family(rng):
             funs.append(gen_fun(rng, fid, shape))
             fid += 1
         chain.append({"excl": rng.random() < 0.2, "funs": funs})
+    mark_exclusive(rng, chain)
     fam = {"chain": chain}
     fam["shape_lazy"] = sorted(shape["lazy"])
     return fam
@@ -633,7 +676,7 @@ def colliding_names(funs):
     for f in funs:
         if f["starstar"]:
             for p in f["pos"] + f["kwonly"]:
-                if camel(p[0]) != p[0]:
+                if palias(p) != p[0]:
                     out.add(p[0])
     return out
 
@@ -647,7 +690,7 @@ def gen_value_for(rng, kind):
         return "null"
     if t == 0:
         return gen_value(rng)
-    cands = [c for c in range(1, 7) if issubclass(CLASSES[c], CLASSES[t])]
+    cands = [c for c in range(1, NCLS) if issubclass(CLASSES[c], CLASSES[t])]
     return ["obj", rng.choice(cands)]
 
 
@@ -688,7 +731,9 @@ def gen_call(rng, family):
     later = [p for p in vis_rest[npos:]] + [p for p in (target["kwonly"] if target else []) if p[1] != ["H"]]
     mapped, pykw = [], []
     for p in later:
-        n = alias_of(p[0])
+        n = palias(p)
+        if rng.random() < 0.07 and p[0] not in colliding_names(funs):
+            n = p[0]                                             # sometimes the python name instead of the alias
         if rng.random() < (0.85 if p[2] is None else 0.5):
             s = simple(p[1])
             if s[0] == "raw" or rng.random() < 0.15:
@@ -696,7 +741,8 @@ def gen_call(rng, family):
             else:
                 mapped.append(["mapc", n, s[1]] if s[0] == "const" else ["mape", n, s[1], s[2]])
     if rng.random() < 0.15:
-        n = rng.choice([x for x in ["zz", "x_y", "a", "k", "xY", "val", "val_"] if x not in colliding_names(funs)])
+        n = rng.choice([x for x in ["zz", "x_y", "a", "k", "xY", "val", "val_", "max_count", "maxCount", "lim", "limit", "opt"]
+                        if x not in colliding_names(funs)])
         if rng.random() < 0.5:
             pykw.append([n, gen_value(rng)])
         else:
@@ -758,9 +804,9 @@ def _strict_sub(t1, t2):
 
 
 class SParam:
-    def __init__(self, name, kind, default, where):
+    def __init__(self, name, kind, default, where, alias=None):
         self.name, self.where = name, where              # where: "pos" | "star" | "kwonly" | "starstar"
-        self.alias = camel(name)
+        self.alias = alias or camel(name)
         self.has_default = default is not None
         self.default = default
         if kind[0] == "U":
@@ -785,6 +831,15 @@ class SParam:
             return a[0] == "const"
         if k == "M":
             return a[0] in ("mapc", "mape")
+        if k == "A":
+            if a[0] in ("expr", "mapc", "mape"):
+                return bool(self.kind[1])
+            v = "marker" if a[0] == "skip" else a[1]
+            if v == "null":
+                return self.kind[2]
+            if v == "marker" or v[0] == "int":
+                return 0 in self.kind[1]
+            return any(issubclass(CLASSES[v[1]], CLASSES[t]) for t in self.kind[1])
         if a[0] in ("expr", "mapc", "mape"):
             return True                              # decided after evaluation
         v = "marker" if a[0] == "skip" else a[1]
@@ -812,9 +867,9 @@ class SParam:
 
 
 def _sparams(fun):
-    ps = [SParam(n, k, d, "pos") for n, k, d in fun["pos"]]
+    ps = [SParam(q[0], q[1], q[2], "pos", q[3] if len(q) > 3 else None) for q in fun["pos"]]
     star = SParam(fun["star"][0], fun["star"][1], None, "star") if fun["star"] else None
-    kwonly = [SParam(n, k, d, "kwonly") for n, k, d in fun["kwonly"]]
+    kwonly = [SParam(q[0], q[1], q[2], "kwonly", q[3] if len(q) > 3 else None) for q in fun["kwonly"]]
     ss = SParam(fun["starstar"][0], fun["starstar"][1], None, "starstar") if fun["starstar"] else None
     return ps, star, kwonly, ss
 
@@ -983,41 +1038,60 @@ def normalise_obs(obs):
 
 # ---- families aimed at several simultaneously matching candidates (C06) ---------------------------
 def gen_family_dense(rng):
-    nvis = rng.choice([1, 1, 2, 2, 3])
-    nlayers = rng.choice([1, 1, 1, 2, 3])
+    """several simultaneously matching candidates per layer.  Parameter types come either from the
+    chain-and-diamond part of the lattice or from a mutually unrelated pool (object / G / B / AnyOf /
+    A ...), where "specialization of a mapping" stops being transitive; exclusive layers register only
+    some of their overloads with exclusive=True."""
+    nvis = rng.choice([1, 1, 2, 2, 2, 3, 3])
+    nlayers = rng.choice([1, 1, 1, 2, 2, 3])
     mixed_nokw = rng.random() < 0.08
     use_kw = rng.random() < 0.3
+    kwname = rng.choice(["k", "max_count", "opt_"])
+    unrelated = rng.random() < 0.5
     chain, fid = [], 1
-    for _ in range(nlayers):
+    for li in range(nlayers):
         funs = []
         for _ in range(rng.choice([2, 3, 3, 4, 5, 6])):
             pos = []
             for n in VIS_NAMES[:nvis]:
-                t = rng.choice([0, 1, 2, 2, 3, 3, 4, 4, 5])
-                pos.append([n, ["T", t, rng.random() < 0.2], None])
+                if unrelated:
+                    r = rng.random()
+                    if r < 0.3:
+                        kind = ["A", rng.choice([[2, 3], [7, 3], [0], [2, 6]]), rng.random() < 0.2]
+                    else:
+                        kind = ["T", rng.choice([0, 0, 2, 3, 7, 7, 8]), rng.random() < 0.2]
+                else:
+                    kind = ["T", rng.choice([0, 1, 2, 2, 3, 3, 4, 4, 5]), rng.random() < 0.2]
+                pos.append([n, kind, None])
             if rng.random() < 0.2:
                 pos.insert(rng.randrange(len(pos) + 1), ["engine", ["H"], None])
             if rng.random() < 0.3:
                 pos[-1][2] = "null" if pos[-1][1] == ["H"] else gen_default(rng, pos[-1][1])
-            kwonly = [["k", ["T", rng.choice([0, 1, 2, 3, 4]), True], "null"]] if use_kw and rng.random() < 0.7 else []
+            kwonly = [[kwname, ["T", rng.choice([0, 1, 2, 3, 4]), True], "null"]] if use_kw and rng.random() < 0.7 else []
             funs.append({"fid": fid, "pos": pos, "star": ["rest", ["T", rng.choice([0, 2, 3, 4]), True]] if rng.random() < 0.1 else None,
                          "kwonly": kwonly, "starstar": None, "kind": rng.choice(["function", "function", "extension"]),
                          "nokw": (rng.random() < 0.5) if mixed_nokw else False})
             fid += 1
-        chain.append({"excl": rng.random() < 0.1, "funs": funs})
-    return {"chain": chain}
+        chain.append({"excl": rng.random() < (0.3 if li < nlayers - 1 else 0.1), "funs": funs})
+    mark_exclusive(rng, chain)
+    return {"chain": chain, "kwname": kwname}
 
 
 def gen_call_dense(rng, family):
     nvis = max(len([p for p in f["pos"] if p[1] != ["H"]]) for l in family["chain"] for f in l["funs"])
     ids = itertools.count(1)
     args = []
+    narrow = rng.random() < 0.25             # values only the widest types accept: inner layers often have no match
     for _ in range(nvis if rng.random() < 0.85 else rng.randrange(nvis + 1)):
-        v = rng.choice([["obj", 5], ["obj", 5], ["obj", 4], ["obj", 4], ["obj", 2], ["obj", 3], "null"])
+        if narrow:
+            v = rng.choice([["obj", 6], ["obj", 1], ["int", 1], ["obj", 2], ["obj", 3]])
+        else:
+            v = rng.choice([["obj", 5], ["obj", 4], ["obj", 8], ["obj", 8], ["obj", 8], ["obj", 2], ["obj", 3], ["obj", 7], "null"])
         args.append(["expr", next(ids), v] if rng.random() < 0.8 else ["const", v])
+    kwname = camel(family.get("kwname", "k"))
     if rng.random() < 0.25:
-        args.append(["mape", "k", next(ids), rng.choice([["obj", 4], ["obj", 5], "null"])])
-    kwargs = [["k", ["obj", 4]]] if rng.random() < 0.08 and not any(a[0] == "mape" for a in args) else []
+        args.append(["mape", kwname, next(ids), rng.choice([["obj", 4], ["obj", 5], "null"])])
+    kwargs = [[kwname, ["obj", 4]]] if rng.random() < 0.08 and not any(a[0] == "mape" for a in args) else []
     recv = None
     if rng.random() < 0.2 and args and args[0][0] == "expr":
         recv = args[0][2]
